@@ -766,4 +766,181 @@ theorem TrStmt.isBinary {p : P} {s s' : Stmt} (t : TrStmt p s s') : s'.isBinaryC
       have tc := t.2.2.2.1
       cases c <;> cases c' <;> simp [TrCmd] at tc <;> rfl
 
+theorem R.call {p q : P} (h : R p q) (args args' : List Word) (t : TrCall p args args') :
+    R (p.command (.call args)) (q.command (.call args')) := by
+  cases args with
+  | nil => simp [TrCall] at t
+  | cons w rest =>
+    cases args' with
+    | nil => simp [TrCall] at t
+    | cons w' rest' =>
+      simp only [TrCall] at t
+      obtain ⟨pos, hp, t1, t2⟩ := t
+      have t1' := t1
+      simp only [TrArgs] at t1'
+      obtain ⟨pos2, hp2, tw, _⟩ := t1'
+      obtain ⟨wp', r', hw', hfirst⟩ := tw.first
+      have hp' : w'.pos? = some wp'.pos := by simp [Word.pos?, hw']
+      rw [command_call p w rest pos hp, command_call q w' rest' wp'.pos hp']
+      have e : pos2 = pos := by rw [hp] at hp2; exact (Option.some.inj hp2).symm
+      subst e
+      -- the first word of a call is never moved to a continuation line
+      have hsl := h.sl
+      have hline : ((p.advanceLine pos2.line).spacePad.incLevel.decLevel).line = max p.line pos2.line := by
+        rw [decLevel_line, incLevel_line, spacePad_line]; rfl
+      have ho : ((p.advanceLine pos2.line).spacePad.incLevel.decLevel).o = p.o := by
+        rw [decLevel_o, incLevel_o, spacePad_o]; rfl
+      have hcur : ((p.advanceLine pos2.line).spacePad.incLevel.decLevel).cur = p.cur := by
+        rw [cur_decLevel, cur_incLevel, cur_spacePad]; rfl
+      have hj : ((p.advanceLine pos2.line).spacePad.incLevel.decLevel).joinStep false pos2 =
+          ((p.advanceLine pos2.line).spacePad.incLevel.decLevel, false) := by
+        unfold P.joinStep
+        rw [hline]
+        have : ¬ pos2.line > max p.line pos2.line := by omega
+        simp [this]
+      rw [hj] at hfirst
+      have hpw : (((p.advanceLine pos2.line).spacePad.incLevel.decLevel).spacePad.preWord w).cur = p.cur := by
+        unfold P.preWord
+        cases hw : w.parts with
+        | nil => simp [Word.pos?, hw] at hp
+        | cons wp r =>
+          have : wp.pos = pos2 := by simpa [Word.pos?, hw] using hp
+          simp only [spacePad_line, hline, this]
+          have : ¬ pos2.line > max p.line pos2.line := by omega
+          simp only [this, decide_false, Bool.and_false, Bool.false_eq_true, ↓reduceIte, cur_spacePad, hcur]
+      rw [hpw] at hfirst
+      have h0 : R ((p.advanceLine pos2.line).spacePad.incLevel.decLevel)
+          ((q.advanceLine wp'.pos.line).spacePad.incLevel.decLevel) :=
+        (h.advance _ _ (by rw [hfirst]; exact Nat.le_refl _)).spacePad.incLevel.decLevel
+      exact (h0.wordJoin [w] [w'] t1).wordJoin rest rest' t2
+
+mutual
+theorem fix_stmt : ∀ (s s' : Stmt) (p q : P), R p q → TrStmt p s s' → R (p.stmt s) (q.stmt s')
+  | .mk pos semi neg bg cmd, .mk pos' semi' neg' bg' cmd', p, q, h, t => by
+    simp only [TrStmt] at t
+    obtain ⟨rfl, rfl, _, tc, ts⟩ := t
+    rw [P.stmt, P.stmt]
+    exact (fix_cmd cmd cmd' _ _ (h.stmtPre neg') tc).stmtEnd ts
+theorem fix_cmd : ∀ (c c' : Cmd) (p q : P), R p q → TrCmd p c c' → R (p.command c) (q.command c')
+  | .call args, c', p, q, h, t => by
+    cases c' with
+    | call args' =>
+      simp only [TrCmd] at t
+      exact h.call args args' t
+    | subshell _ _ _ => simp [TrCmd] at t
+    | block _ _ _ => simp [TrCmd] at t
+    | binary _ _ _ _ => simp [TrCmd] at t
+  | .binary opPos op x y, c', p, q, h, t => by
+    cases c' with
+    | call _ => simp [TrCmd] at t
+    | subshell _ _ _ => simp [TrCmd] at t
+    | block _ _ _ => simp [TrCmd] at t
+    | binary opPos' op' x' y' =>
+      simp only [TrCmd] at t
+      obtain ⟨rfl, tx, hop, ty⟩ := t
+      rw [P.command, P.command]
+      have hx0 : x'.pos.line = p.cur := by rw [tx.pos, cur_spacePad]; rfl
+      have h0 : R ((p.advanceLine x.pos.line).spacePad) ((q.advanceLine x'.pos.line).spacePad) :=
+        (h.advance _ _ (by rw [hx0]; exact Nat.le_refl _)).spacePad
+      have h1 := fix_stmt x x' _ _ h0 tx
+      have k := h1.binaryOp opPos opPos' op' y.pos.line y'.pos.line y.isBinaryCmd ty.pos hop
+      rw [ty.isBinary, k.2]
+      exact (fix_stmt y y' _ _ k.1 ty).binaryEnd _ _
+  | .subshell _ _ _, _, _, _, _, t => by simp [TrCmd] at t
+  | .block _ _ _, _, _, _, _, t => by simp [TrCmd] at t
+end
+
+/-- the statements of a list, as read back from where the `stmtList` loop writes them -/
+def TrLoop (p : P) (first : Bool) : Stmts → Stmts → Prop
+  | .nil, .nil => True
+  | .cons s rest, .cons s' rest' =>
+      TrStmt (p.stmtSep first s.pos.line) s s' ∧
+      TrLoop { ((p.stmtSep first s.pos.line).stmt s) with wantNewline := true } false rest rest'
+  | _, _ => False
+
+theorem fix_loop : ∀ (ss ss' : Stmts) (p q : P) (first : Bool), R p q → TrLoop p first ss ss' →
+    R (p.stmtListLoop first ss) (q.stmtListLoop first ss')
+  | .nil, .nil, p, q, first, h, _ => by
+    rw [P.stmtListLoop, P.stmtListLoop]; exact h
+  | .nil, .cons _ _, _, _, _, _, t => by simp [TrLoop] at t
+  | .cons _ _, .nil, _, _, _, _, t => by simp [TrLoop] at t
+  | .cons s rest, .cons s' rest', p, q, first, h, t => by
+    simp only [TrLoop] at t
+    obtain ⟨ts, tr⟩ := t
+    rw [P.stmtListLoop, P.stmtListLoop]
+    have h1 := h.stmtSep first s.pos.line s'.pos.line ts.pos
+    have h2 := fix_stmt s s' _ _ h1 ts
+    exact fix_loop rest rest' _ _ false (h2.set_wantNewline true) tr
+
+/-! ### files -/
+
+/-- the second run may as well start with its line counter on line 1 -/
+def P.init1 (o : Opts) : P := { P.init o with line := 1 }
+
+theorem R.init (o : Opts) (hsl : o.singleLine = false) : R (P.init o) (P.init1 o) :=
+  ⟨rfl, rfl, rfl, rfl, rfl, rfl, rfl, rfl, rfl, rfl, rfl, rfl, rfl, hsl⟩
+
+theorem init_sep (o : Opts) (l : Nat) (hl : 1 ≤ l) :
+    (P.init o).stmtSep true l = (P.init1 o).stmtSep true l := by
+  have e : max 0 l = max 1 l := by omega
+  cases hm : o.minify <;>
+    simp [P.stmtSep, P.init, P.init1, hm, P.newlines, P.advanceLine, e]
+
+theorem init_loop (o : Opts) (ss : Stmts) (h : ∀ s r, ss = .cons s r → 1 ≤ s.pos.line) :
+    ((P.init o).stmtListLoop true ss).out = ((P.init1 o).stmtListLoop true ss).out ∧
+    ((P.init o).stmtListLoop true ss).panicked = ((P.init1 o).stmtListLoop true ss).panicked := by
+  cases ss with
+  | nil => rw [P.stmtListLoop, P.stmtListLoop]; exact ⟨rfl, rfl⟩
+  | cons s r =>
+    rw [P.stmtListLoop, P.stmtListLoop, init_sep o _ (h s r rfl)]
+    exact ⟨rfl, rfl⟩
+
+theorem stmtList_fin (p : P) (ss : Stmts) :
+    ((p.stmtList ss).newline 0).finish = ((p.stmtListLoop true ss).newline 0).finish := by
+  unfold P.stmtList P.stmtListWith
+  simp only []
+  split
+  · split <;> split <;> rfl
+  · rfl
+
+theorem fin_congr (a b : P) (ho : a.out = b.out) (hp : a.panicked = b.panicked) :
+    (a.newline 0).finish = (b.newline 0).finish := by
+  unfold P.finish P.newline P.advanceLine P.gapw
+  simp only [ho, hp]
+
+theorem fin_R {p q : P} (h : R p q) : (q.newline 0).finish = (p.newline 0).finish := by
+  have e : render (Piece.gap [10] :: q.out).reverse = render (Piece.gap [10] :: p.out).reverse := by
+    have := h.out
+    unfold outB at this
+    simp only [List.reverse_cons, render_snoc, this]
+  unfold P.finish P.newline P.advanceLine P.gapw
+  simp only [h.panicked, e]
+
+/-- `f'` carries the lines on which printing `f` puts its tokens -/
+def TrFile (o : Opts) (f f' : File) : Prop := TrLoop (P.init o) true f.stmts f'.stmts
+
+theorem cur_pos (p : P) : 1 ≤ p.cur := by unfold P.cur; omega
+
+/-- **The printer is a fixpoint on transcripts of its own output.** -/
+theorem printFile_fix (o : Opts) (f f' : File) (hsl : o.singleLine = false) (t : TrFile o f f') :
+    printFile o f' = printFile o f := by
+  unfold printFile
+  split
+  · rfl
+  · rw [stmtList_fin, stmtList_fin]
+    have h1 : ∀ s r, f'.stmts = .cons s r → 1 ≤ s.pos.line := by
+      intro s r hs
+      unfold TrFile at t
+      rw [hs] at t
+      cases hf : f.stmts with
+      | nil => rw [hf] at t; simp [TrLoop] at t
+      | cons s0 r0 =>
+        rw [hf] at t
+        simp only [TrLoop] at t
+        rw [t.1.pos]
+        exact cur_pos _
+    have e := init_loop o f'.stmts h1
+    rw [fin_congr _ _ e.1 e.2]
+    exact fin_R (fix_loop f.stmts f'.stmts _ _ true (R.init o hsl) t)
+
 end ShVerif.L4
